@@ -167,6 +167,10 @@ def rule_nopath(ctx: Ctx) -> RuleResult:
     return res
 
 
+LOSSY_PATH_CALLS = {"normpath", "abspath", "realpath", "resolve", "normcase", "lower", "upper", "casefold", "strip", "rstrip", "lstrip",
+                    "expanduser", "expandvars", "absolute", "relpath"}
+
+
 def rule_reformat(ctx: Ctx) -> RuleResult:
     """C06 second clause by shape: a path only yields typed data after the data has been formatted back
     through the same configuration and compared with the given path."""
@@ -215,6 +219,14 @@ def rule_reformat(ctx: Ctx) -> RuleResult:
                                for s in sides)
                 has_path = any(any(a.kind == "param" and a.text == path_p for a in flow.depends(s, t.id)) for s in sides)
                 if not (has_back and has_path):
+                    continue
+                # ... with the path *as given* (separators apart): a collapsing normalisation on the way to the comparison
+                # makes 'a/../b' own the Sid of 'b'
+                lossy = sorted({a.text for s in sides for a in flow.depends(s, t.id)
+                                if a.kind == "call" and a.text.split(".")[-1] in LOSSY_PATH_CALLS and not any(n is b for n in ast.walk(s))})
+                if lossy:
+                    why = (f"the given path goes through {lossy} before it is compared with the re-formatted path: paths that merely "
+                           f"normalise to a Sid's path ('x/../y', 'y/.', 'y//') are typed as that Sid")
                     continue
                 good_label = "true" if isinstance(cmp_.ops[0], ast.Eq) else "false"
                 all_guarded = True
